@@ -1,6 +1,7 @@
 import TsV.Lemmas.C10_Lex
 import TsV.Lemmas.Outcome
 import TsV.Model.Lang.TypeScript
+import TsV.Lemmas.C15
 /-!
 # C10 — TypeScript: every declaration the model renders is lexically well-formed
 -/
@@ -185,7 +186,15 @@ theorem docs_block (n : Nat) (stk : List Char) : ∀ (cs : List Str), DocsOk cs 
     obtain ⟨b2, hb2, r2⟩ := docs_block n stk (d :: r) (fun x hx => h x (by simp [hx]))
     exact ⟨b2, hb2, (r1.append (sep_block n stk b1 hb1)).append r2⟩
 
-theorem comments_nb (n : Nat) (cs : List Str) (h : DocsOk cs) : NB T (comments n cs) := by
+/-- `write_comments` escapes `*/` (C15 repair), so the written entries never contain the terminator -/
+theorem escaped_docsOk (cs : List Str) : DocsOk (cs.map escapeDoc) := by
+  intro c hc
+  obtain ⟨d, _, rfl⟩ := List.mem_map.mp hc
+  exact C15.ts_escape_no_close d
+
+/-- the comment block is closed for *every* doc text (the hypothesis is kept for the callers' scope
+structures; it is no longer needed since `*/` is escaped) -/
+theorem comments_nb (n : Nat) (cs : List Str) (_h : DocsOk cs) : NB T (comments n cs) := by
   unfold comments
   split
   · exact NB.nil
@@ -193,7 +202,7 @@ theorem comments_nb (n : Nat) (cs : List Str) (h : DocsOk cs) : NB T (comments n
     intro stk
     have r1 := NB.tabs (cfg := T) n stk
     have r2 : Run T s%"/** " ⟨.code, stk⟩ ⟨.block, stk⟩ := rfl
-    obtain ⟨b, hb, r3⟩ := doc_block c (h c (by simp)) stk
+    obtain ⟨b, hb, r3⟩ := doc_block (escapeDoc c) (C15.ts_escape_no_close c) stk
     have r4 : Run T s%" */" b ⟨.code, stk⟩ := by rcases hb with rfl | rfl <;> rfl
     have r5 : Run T nl ⟨.code, stk⟩ ⟨.code, stk⟩ := rfl
     exact (((r1.append r2).append r3).append r4).append r5
@@ -202,7 +211,7 @@ theorem comments_nb (n : Nat) (cs : List Str) (h : DocsOk cs) : NB T (comments n
     have r2 : Run T s%"/**\n" ⟨.code, stk⟩ ⟨.block, stk⟩ := rfl
     have r3 := tabs_block n stk
     have r4 : Run T s%" * " ⟨.block, stk⟩ ⟨.block, stk⟩ := rfl
-    obtain ⟨b, hb, r5⟩ := docs_block n stk cs h
+    obtain ⟨b, hb, r5⟩ := docs_block n stk (cs.map escapeDoc) (escaped_docsOk cs)
     have r6 : Run T nl b ⟨.block, stk⟩ := by rcases hb with rfl | rfl <;> rfl
     have r8 : Run T s%" */" ⟨.block, stk⟩ ⟨.code, stk⟩ := rfl
     have r9 : Run T nl ⟨.code, stk⟩ ⟨.code, stk⟩ := rfl
